@@ -1,3 +1,4 @@
+#define HV_EIGEN_ASSERT_THROWS
 // C01 numeric harness: real library (float/double) vs the documented-matrix oracle in long double.
 // Serves as (i) the accuracy clause of C01 and (ii) the failing-input search when a C01 proof breaks.
 #include "docmat.hpp"
@@ -121,7 +122,9 @@ void run(Report & rep, Rng & rng, int n, double tol)
   }
 }
 
-int main()
+static int hv_main();
+int main() { return hv::guard(hv_main); }
+static int hv_main()
 {
   Report rep;
   rep.property = "C01";
